@@ -8,11 +8,11 @@ WT=/tmp/seed/port
 OUT=/verif/seeded/$NAME
 cd $WT && git checkout -q -- . && git clean -fdq -e target
 git apply "$PATCH" || { echo "$NAME: PATCH DOES NOT APPLY"; exit 1; }
-SUITE=$(cargo test --workspace --no-fail-fast --offline 2>&1 | grep -E "^test result" | awk '{p+=$4; f+=$6} END {print p" passed "f" failed"}')
+SUITE=$(timeout 900 cargo test --workspace --no-fail-fast --offline 2>&1 | grep -E "^test result" | awk '{p+=$4; f+=$6} END {print p" passed "f" failed"}')
 cp "$DEMO" tests/vx_demo_test.rs
-WITH=$(cargo test --offline --test vx_demo_test 2>&1 | grep -E "^test result" | head -1)
+WITH=$(timeout 240 cargo test --offline --test vx_demo_test 2>&1 | grep -E "^test result" | head -1); [ -z "$WITH" ] && WITH="test result: FAILED (no result within 240 s: hang or build error)"
 git checkout -q -- . 
-WITHOUT=$(cargo test --offline --test vx_demo_test 2>&1 | grep -E "^test result" | head -1)
+WITHOUT=$(timeout 240 cargo test --offline --test vx_demo_test 2>&1 | grep -E "^test result" | head -1)
 rm -f tests/vx_demo_test.rs
 echo "$NAME: suite with patch: $SUITE | demo with patch: $WITH | demo without: $WITHOUT"
 case "$SUITE" in "73 passed 0 failed") ;; *) echo "$NAME: REJECTED (suite)"; exit 2;; esac
